@@ -48,7 +48,7 @@ func main() {
 		"non-trivial = a query that returns a value (a listed size, a defined data-rate, an existing channel / TX-power index, an accepted RX1 pair); "+
 			"queries answered with an error are the trivial ones; distinct = distinct printed case")
 	s.ShardSize = 3000
-	cfgs := bandcfg.All()
+	cfgs := bandcfg.AllWithAliases() // 56 common configurations + 40 through the deprecated names
 
 	maxpl := func(c bandcfg.Config, b band.Band, ver, rev string, dr int, kind string) {
 		size := ""
@@ -179,8 +179,13 @@ func main() {
 		}
 
 		// max payload: every version x revision x DR 0..15 (exhaustive in both tiers)
-		for _, ver := range versions {
-			for _, rev := range revisions {
+		for vi, ver := range versions {
+			for ri, rev := range revisions {
+				if c.Alias && !thorough && !((vi == 2 || vi == 3 || vi == 7) && (ri == 0 || ri == 1 || ri == 6 || ri == 8)) {
+					// objects obtained through a deprecated name (tables proved equal to those of the common
+					// name): 1.0.2 / 1.0.3 / unknown x A / B / RP002-1.0.3 / unknown in the quick tier
+					continue
+				}
 				for dr := 0; dr <= 15; dr++ {
 					maxpl(c, b, ver, rev, dr, "maxpl")
 				}
@@ -278,12 +283,12 @@ func main() {
 		}
 	}
 	// band objects after AddChannel histories (history.go)
-	enabledHistories(s, r, thorough, cfgs)
+	enabledHistories(s, r, thorough, bandcfg.All())
 
-	s.Exhaustive(fmt.Sprintf("max payload: 56 configurations x %d version strings (6 known, latest, unknown, RP002-1.0.0) x %d revision strings (7 known, latest, unknown) x DR 0..15", len(versions), len(revisions)))
-	s.Exhaustive("GetDataRate / GetDataRateIndex: 56 configurations x DR -2..16 x both directions")
-	s.Exhaustive("accepted RX1 pairs: 56 configurations x DR 0..15 x offset 0..7")
-	s.Exhaustive("default channels, TX-power offsets, enabled uplink data-rates, defaults: every index of every configuration")
+	s.Exhaustive(fmt.Sprintf("max payload: 56 configurations x %d version strings (6 known, latest, unknown, RP002-1.0.0) x %d revision strings (7 known, latest, unknown) x DR 0..15; the 40 objects obtained through the 10 deprecated names: 3 x 4 strings x DR 0..15 (all in the thorough tier)", len(versions), len(revisions)))
+	s.Exhaustive("GetDataRate / GetDataRateIndex: 96 objects (14 common + 10 deprecated names, x repeater x dwell time) x DR -2..16 x both directions")
+	s.Exhaustive("accepted RX1 pairs: 96 objects x DR 0..15 x offset 0..7")
+	s.Exhaustive("default channels, TX-power offsets, enabled uplink data-rates, defaults: every index of every one of the 96 objects")
 	if err := s.Finish(); err != nil {
 		fmt.Fprintln(os.Stderr, err)
 		os.Exit(2)
